@@ -108,7 +108,7 @@ GuardCode(t, v) ==
 RECURSIVE CanSucceed(_, _, _)
 CanSucceed(t, v, fuel) ==
   IF fuel = 0 \/ v = "*" THEN TRUE
-  ELSE IF T(t).guard = "platform" THEN TRUE
+  ELSE IF T(t).guard \in {"platform", "platreq"} THEN TRUE
   ELSE /\ ~GuardFails(t, v, FALSE)
        /\ \A d \in Range(ExpDeps(t)) : CanSucceed(d.t, ResolveV(d.v, v), fuel - 1)
        /\ \/ T(t).guard = "uptodate"
@@ -123,7 +123,7 @@ CanSucceed(t, v, fuel) ==
 \* shared, its path is that of whoever came first); v = "*" : V not determined.
 RECURSIVE Req(_, _, _, _)
 Req(t, v, pp, fuel) ==
-  IF fuel = 0 \/ T(t).guard = "platform" THEN {}
+  IF fuel = 0 \/ T(t).guard \in {"platform", "platreq"} THEN {}
   ELSE LET own == IF T(t).guard = "uptodate" THEN {}
                   ELSE { [p |-> pp, t |-> t, i |-> e.i, item |-> e.item,
                           v |-> IF T(t).run = "once" THEN "*" ELSE v] :
@@ -270,7 +270,7 @@ C07Viol(ev) == IF Lim > 0 /\ Cardinality(Running) + 1 > Lim THEN {Viol("C07", "l
 C13Viol(ev) ==
   LET isRoot == Len(ev.p) = 1 /\ ev.p[1][1] = "r" IN
   IF GuardFails(ev.t, ev.v, isRoot) THEN {Viol("C13", T(ev.t).guard)}
-  ELSE IF T(ev.t).guard = "platform" THEN {Viol("C13", "platform")}
+  ELSE IF T(ev.t).guard \in {"platform", "platreq"} THEN {Viol("C13", "platform")}
   ELSE {}
 
 BeginViol(ev) == C01Viol(ev) \cup C02Viol(ev) \cup C03Viol(ev) \cup C06Viol(ev) \cup C07Viol(ev) \cup C13Viol(ev)
@@ -296,7 +296,7 @@ Prop(pp, x, own, viaDep, sure) ==
 \* A command that was still running when its context got cancelled ends with the cancellation
 \* instead of its own exit status; that can only happen after an earlier failure (or a failing
 \* guard), so only the first failure of a guard-free program is `sure` to carry its own code.
-AnyGuard == \E t \in DOMAIN Prog.tasks : T(t).guard \notin {"none", "uptodate", "platform"}
+AnyGuard == \E t \in DOMAIN Prog.tasks : T(t).guard \notin {"none", "uptodate", "platform", "platreq"}
 
 \* a caller that shares a deduplicated execution observes that execution's outcome, which may be
 \* "cancelled" (not an exit status) when the failure happened next to the first caller
@@ -347,6 +347,14 @@ RetViol(r) ==
    THEN {Viol("C03", "ignored-failure-affects-status")} ELSE {})
   \cup
   (IF GuardWitness # 0 /\ begun = {} /\ r.code # GuardWitness THEN {Viol("C13", "guard-status")} ELSE {})
+  \cup
+  \* a task that is not for this platform is skipped silently and successfully, whatever else it requires
+  (IF Len(Prog.roots) = 1 /\ T(Prog.roots[1].t).guard \in {"platform", "platreq"} /\ r.code # 0
+   THEN {Viol("C13", "platform-skip-not-silent")} ELSE {})
+  \cup
+  (IF Len(Prog.roots) = 1 /\ T(Prog.roots[1].t).guard = "none" /\ ~AnyGuard /\ DOMAIN dead = {} /\ r.code # 0 /\ r.code # 204
+      /\ \E t \in DOMAIN Prog.tasks : T(t).guard \in {"platform", "platreq"}
+   THEN {Viol("C13", "platform-skip-not-silent")} ELSE {})
   \cup
   { Viol("C14", "defer-not-run") :
       b \in { b \in begun : \E k \in 1..Len(ExpCmds(b.t)) :
